@@ -19,19 +19,25 @@ LOADER_KINDS = ("dict", "dictp", "cdict", "cdictp", "fs", "cfs", "fs2", "cfs2", 
 
 
 class Catalog:
-    """A gettext-style translations double: marks what it was asked for."""
+    """A gettext-style translations double: marks what it was asked for, in its language.
+
+    A new object per render (as an application creating a catalog per request would)."""
+
+    def __init__(self, lang: str = "T") -> None:
+        self.lang = lang
 
     def gettext(self, message: str) -> str:
-        return "T(" + message + ")"
+        return f"{self.lang}(" + message + ")"
 
     def ngettext(self, singular: str, plural: str, n: int) -> str:
-        return "T1(" + singular + ")" if n == 1 else "TN(" + plural + ")"
+        return f"{self.lang}1(" + singular + ")" if n == 1 else f"{self.lang}N(" + plural + ")"
 
     def pgettext(self, context: str, message: str) -> str:
-        return f"T[{context}](" + message + ")"
+        return f"{self.lang}[{context}](" + message + ")"
 
     def npgettext(self, context: str, singular: str, plural: str, n: int) -> str:
-        return f"T1[{context}](" + singular + ")" if n == 1 else f"TN[{context}](" + plural + ")"
+        return (f"{self.lang}1[{context}](" + singular + ")" if n == 1
+                else f"{self.lang}N[{context}](" + plural + ")")
 
 
 def make_store(kind: str, partials: dict[str, str], mtime: float, tenants=("t1",)):
@@ -106,7 +112,7 @@ def make_env(cfg: dict, loader, extra_globals: dict | None = None):
               "context_depth_limit", "suppress_blank_control_flow_blocks", "shorthand_indexes"):
         if cfg.get(k) is not None:
             ns[k] = cfg[k]
-    cls = type("SimEnv", (base,), ns)
+    cls = base   # the library's own class (picklable); limits are set on the instance below
     undefined = {"strict": StrictUndefined, "falsy": FalsyStrictUndefined}.get(cfg.get("undefined"), Undefined)
     trim = {"-": WhitespaceControl.MINUS, "~": WhitespaceControl.TILDE}.get(cfg.get("trim"), WhitespaceControl.PLUS)
     g = dict(cfg.get("globals") or {})
@@ -114,6 +120,8 @@ def make_env(cfg: dict, loader, extra_globals: dict | None = None):
         g.update(extra_globals)
     env = cls(loader=loader, globals=g, auto_escape=bool(cfg.get("auto_escape")),
               undefined=undefined, default_trim=trim)
+    for k, v in ns.items():
+        setattr(env, k, v)
     if cfg.get("translation_filters"):
         liquid2.builtin.register_translation_filters(env, replace=True, autoescape_message=bool(cfg.get("auto_escape")))
     return env
